@@ -4,29 +4,60 @@
 //! OBS: outcome (0 ok | 1 err | 2 caller panic | 3 length panic), k, ids..., polls, d, dropped ids (sorted).
 use generic_array::typenum::*;
 use generic_array::{ArrayLength, GenericArray};
-use harness::track::{self, Tr};
+use harness::track::{self, Tr, Tz};
 use harness::*;
 use std::cell::Cell;
 use std::rc::Rc;
 
 type U1025 = Sum<U1024, U1>;
 
-struct Script {
+/// element kinds: Tr (sized, identity-carrying) and Tz (zero-sized: a Vec of them has capacity
+/// usize::MAX and never allocates; identities are reconstructed from the order of the script)
+trait El: Sized + 'static {
+    const ZST: bool;
+    fn mk(id: i64) -> Self;
+    fn ident(&self) -> i64;
+}
+impl El for Tr {
+    const ZST: bool = false;
+    fn mk(id: i64) -> Tr {
+        Tr::new(id)
+    }
+    fn ident(&self) -> i64 {
+        self.id
+    }
+}
+impl El for Tz {
+    const ZST: bool = true;
+    fn mk(_: i64) -> Tz {
+        Tz::new()
+    }
+    fn ident(&self) -> i64 {
+        -1
+    }
+}
+
+struct Script<E> {
     resp: Vec<i64>,
     pos: usize,
     polls: Rc<Cell<usize>>,
+    yielded: Rc<std::cell::RefCell<Vec<i64>>>,
     hint: (usize, Option<usize>),
+    _e: std::marker::PhantomData<E>,
 }
-impl Iterator for Script {
-    type Item = Tr;
-    fn next(&mut self) -> Option<Tr> {
+impl<E: El> Iterator for Script<E> {
+    type Item = E;
+    fn next(&mut self) -> Option<E> {
         self.polls.set(self.polls.get() + 1);
         let r = self.resp.get(self.pos).copied().unwrap_or(-1);
         self.pos += 1;
         match r {
             -1 => None,
             -2 => panic!("injected source panic"),
-            id => Some(Tr::new(id)),
+            id => {
+                self.yielded.borrow_mut().push(id);
+                Some(E::mk(id))
+            }
         }
     }
     fn size_hint(&self) -> (usize, Option<usize>) {
@@ -34,13 +65,14 @@ impl Iterator for Script {
     }
 }
 
-fn run<N: ArrayLength>(case: &[i128]) -> (Vec<i128>, Vec<String>) {
+fn run<E: El, N: ArrayLength>(case: &[i128]) -> (Vec<i128>, Vec<String>) {
     let form = case[0];
     let hint = (case[2] as usize, if case[3] < 0 { None } else { Some(case[3] as usize) });
     let resp: Vec<i64> = case[4..].iter().map(|x| *x as i64).collect();
     track::reset(100000);
     let polls = Rc::new(Cell::new(0));
-    let src = Script { resp: resp.clone(), pos: 0, polls: polls.clone(), hint };
+    let yielded = Rc::new(std::cell::RefCell::new(vec![]));
+    let src = Script::<E> { resp: resp.clone(), pos: 0, polls: polls.clone(), yielded: yielded.clone(), hint, _e: std::marker::PhantomData };
     let mut out = vec![];
     let mut result_ids: Vec<i64> = vec![];
     let push_ok = |out: &mut Vec<i128>, ids: &[i64]| {
@@ -50,18 +82,18 @@ fn run<N: ArrayLength>(case: &[i128]) -> (Vec<i128>, Vec<String>) {
     };
     let classify = |m: &str| if m.contains("expected") && m.contains("items") { 3 } else { 2 };
     match form {
-        0 => match catch(move || GenericArray::<Tr, N>::try_from_iter(src)) {
+        0 => match catch(move || GenericArray::<E, N>::try_from_iter(src)) {
             Ok(Ok(a)) => {
-                result_ids = a.iter().map(|t| t.id).collect();
+                result_ids = a.iter().map(|t| t.ident()).collect();
                 std::mem::forget(a);
                 push_ok(&mut out, &result_ids)
             }
             Ok(Err(_)) => out.extend([1, 0]),
             Err(m) => out.extend([classify(&m), 0]),
         },
-        1 => match catch(move || GenericArray::<Tr, N>::try_boxed_from_iter(src)) {
+        1 => match catch(move || GenericArray::<E, N>::try_boxed_from_iter(src)) {
             Ok(Ok(a)) => {
-                result_ids = a.iter().map(|t| t.id).collect();
+                result_ids = a.iter().map(|t| t.ident()).collect();
                 for t in a.into_iter() {
                     std::mem::forget(t)
                 }
@@ -70,17 +102,17 @@ fn run<N: ArrayLength>(case: &[i128]) -> (Vec<i128>, Vec<String>) {
             Ok(Err(_)) => out.extend([1, 0]),
             Err(m) => out.extend([classify(&m), 0]),
         },
-        2 => match catch(move || src.collect::<GenericArray<Tr, N>>()) {
+        2 => match catch(move || src.collect::<GenericArray<E, N>>()) {
             Ok(a) => {
-                result_ids = a.iter().map(|t| t.id).collect();
+                result_ids = a.iter().map(|t| t.ident()).collect();
                 std::mem::forget(a);
                 push_ok(&mut out, &result_ids)
             }
             Err(m) => out.extend([classify(&m), 0]),
         },
-        _ => match catch(move || src.collect::<Box<GenericArray<Tr, N>>>()) {
+        _ => match catch(move || src.collect::<Box<GenericArray<E, N>>>()) {
             Ok(a) => {
-                result_ids = a.iter().map(|t| t.id).collect();
+                result_ids = a.iter().map(|t| t.ident()).collect();
                 for t in a.into_iter() {
                     std::mem::forget(t)
                 }
@@ -92,14 +124,38 @@ fn run<N: ArrayLength>(case: &[i128]) -> (Vec<i128>, Vec<String>) {
     let p = polls.get();
     out.push(p as i128);
     let log = track::take_log();
-    let d = track::drops_sorted(&log);
+    let mut d = track::drops_sorted(&log);
+    if E::ZST {
+        // zero-sized items carry no identity: the result holds the first items the source yielded, the
+        // dropped ones are the rest -- provided the COUNTS are right (otherwise a marker that matches nothing)
+        let y = yielded.borrow().clone();
+        let k = result_ids.len();
+        let zdrops = log.iter().filter(|e| matches!(e, track::Ev::ZDrop)).count();
+        let znew = log.iter().filter(|e| matches!(e, track::Ev::ZNew)).count();
+        let fixed: Vec<i64> = y.iter().take(k).copied().collect();
+        // rewrite the ids already pushed for an Ok outcome
+        if out.first() == Some(&0) {
+            out.truncate(2);
+            out.extend(fixed.iter().map(|x| *x as i128));
+            out.push(p as i128);
+        }
+        result_ids = fixed;
+        d = if znew == y.len() && zdrops + k == y.len() {
+            let mut r: Vec<i64> = y.iter().skip(k).copied().collect();
+            r.sort();
+            r
+        } else {
+            vec![-7; zdrops]
+        };
+    }
     out.push(d.len() as i128);
     out.extend(d.iter().map(|x| *x as i128));
     // direct oracle: every item pulled is in the result or was dropped exactly once
-    let mut created: Vec<i64> = log
-        .iter()
-        .filter_map(|e| if let track::Ev::New(x) = e { Some(*x) } else { None })
-        .collect();
+    let mut created: Vec<i64> = if E::ZST {
+        yielded.borrow().clone()
+    } else {
+        log.iter().filter_map(|e| if let track::Ev::New(x) = e { Some(*x) } else { None }).collect()
+    };
     created.sort();
     let mut accounted: Vec<i64> = d.clone();
     accounted.extend(&result_ids);
@@ -122,6 +178,8 @@ fn run<N: ArrayLength>(case: &[i128]) -> (Vec<i128>, Vec<String>) {
     (out, oracle)
 }
 
+thread_local! { static ZST_RUN: Cell<bool> = Cell::new(false); }
+
 fn do_case(case: Vec<i128>) {
     emit_case(&case);
     let n = case[1] as usize;
@@ -129,7 +187,7 @@ fn do_case(case: Vec<i128>) {
         dispatch_len!(
             n,
             [U0, U1, U2, U3, U5, U8, U16, U33, U1025],
-            |N| run::<N>(&case),
+            |N| if ZST_RUN.with(|z| z.get()) { run::<Tz, N>(&case) } else { run::<Tr, N>(&case) },
             panic!("length {} not monomorphised", n)
         )
     });
@@ -150,12 +208,14 @@ fn do_case(case: Vec<i128>) {
 fn main() {
     let a = args();
     quiet_panics();
+    ZST_RUN.with(|z| z.set(a.extra.iter().any(|x| x == "tz")));
     if let Some(c) = a.replay {
         do_case(c);
         return;
     }
     let thorough = a.tier == "thorough";
     let only_panics = a.extra.iter().any(|x| x == "panics");
+
     let ns: Vec<usize> = if thorough { vec![0, 1, 2, 3, 5, 8, 16, 33] } else { vec![0, 1, 2, 3, 5, 8] };
     for &n in &ns {
         for form in 0..4i128 {
